@@ -12,6 +12,7 @@
 import MpirProofs.Lemmas.FftRingBfly
 import MpirProofs.Lemmas.FftRingCombine
 import MpirProofs.Lemmas.FftRingMulmod
+import MpirProofs.Lemmas.FftRingMulmodK
 import MpirProofs.Lemmas.FftRingSqrt2
 namespace Mpir.Fft
 open Mpir
@@ -198,26 +199,44 @@ example : combine_bits [0, 0] (split_bits [0xfedcba9876543210, 0x123] 37 1) 37 1
 
 /-! ### the pointwise product -/
 
-/-- mpn_mulmod_2expp1_basecase for b = 64·n on the path that does not enter mpir_fft_mulmod_2expp1, with
-    mpn_mul_n taken as the exact product: `ret·2^b + x ≡ y·z (mod 2^b + 1)` where an operand whose flag bit in
-    `c` is set stands for 2^b; the result is fully reduced (`x + 2^b·ret ≤ 2^b`, ret ∈ {0, 1}).
-    PARTIAL: b a multiple of 64 only (what every FFT caller passes: b = n·w = 64·limbs).  Not closed here:
-    b mod 64 ≠ 0 (the masked/shifted path of mpn_mulmod_2expp1_internal, :108-123) and the FFT branch for
-    n > FFT_MULMOD_2EXPP1_CUTOFF; the model of both is tied by the differential run (op fft_mulmod_2expp1). -/
-theorem mulmod_2expp1_basecase_val_partial (yp zp : List Nat) (c n : Nat) (hn : 1 ≤ n) (hy : Limbs yp)
-    (hz : Limbs zp) (hly : yp.length = n) (hlz : zp.length = n) :
-    (mulmod_2expp1_basecase yp zp c (64 * n)).1.length = n ∧ Limbs (mulmod_2expp1_basecase yp zp c (64 * n)).1 ∧
-    (mulmod_2expp1_basecase yp zp c (64 * n)).2 ≤ 1 ∧
-    val (mulmod_2expp1_basecase yp zp c (64 * n)).1 + B ^ n * (mulmod_2expp1_basecase yp zp c (64 * n)).2 ≤ B ^ n ∧
-    ((val (mulmod_2expp1_basecase yp zp c (64 * n)).1 : Int) +
-      (B : Int) ^ n * (mulmod_2expp1_basecase yp zp c (64 * n)).2 ≡
-        flagged (c / 2 % 2) n yp * flagged (c % 2) n zp [ZMOD pmod n]) :=
-  basecase_spec yp zp c n hn hy hz hly hlz
+/-- mpn_mulmod_2expp1_basecase for every b ≥ 1 (n = ⌈b/64⌉ limbs, operands below 2^b as the C ASSERTs) on the
+    path that does not enter mpir_fft_mulmod_2expp1, with mpn_mul_n taken as the exact product:
+    `ret·2^b + x ≡ y·z (mod 2^b + 1)`, where an operand whose flag bit in `c` is set stands for 2^b; the result is
+    fully reduced (`x + 2^b·ret ≤ 2^b`, ret ∈ {0, 1}).  Both the whole-limb path (:103-105) and the masked, shifted
+    path for b mod 64 ≠ 0 (:108-123) are covered.  Not modelled (hence not covered): the branch into
+    mpir_fft_mulmod_2expp1 taken for b = 64·n, n > FFT_MULMOD_2EXPP1_CUTOFF, n = mpir_fft_adjust_limbs(n). -/
+theorem mulmod_2expp1_basecase_val (yp zp : List Nat) (c b : Nat) (hb : 1 ≤ b) (hy : Limbs yp) (hz : Limbs zp)
+    (hly : yp.length = (b + 63) / 64) (hlz : zp.length = (b + 63) / 64)
+    (hyb : val yp < 2 ^ b) (hzb : val zp < 2 ^ b) :
+    (mulmod_2expp1_basecase yp zp c b).1.length = (b + 63) / 64 ∧ Limbs (mulmod_2expp1_basecase yp zp c b).1 ∧
+    (mulmod_2expp1_basecase yp zp c b).2 ≤ 1 ∧
+    val (mulmod_2expp1_basecase yp zp c b).1 + 2 ^ b * (mulmod_2expp1_basecase yp zp c b).2 ≤ 2 ^ b ∧
+    ((val (mulmod_2expp1_basecase yp zp c b).1 : Int) + 2 ^ b * (mulmod_2expp1_basecase yp zp c b).2 ≡
+        flaggedb (c / 2 % 2) b yp * flaggedb (c % 2) b zp [ZMOD 2 ^ b + 1]) := by
+  generalize hn : (b + 63) / 64 = n at *
+  have hn1 : 1 ≤ n := by omega
+  by_cases hk : 64 * n - b = 0
+  · have hb' : b = 64 * n := by omega
+    subst hb'
+    obtain ⟨r1, r2, r3, r4, r5⟩ := basecase_spec yp zp c n hn1 hy hz hly hlz
+    have e : (B : Int) ^ n = 2 ^ (64 * n) := B_pow_two n
+    have e' : B ^ n = 2 ^ (64 * n) := B_pow_two' n
+    have f : ∀ fl u, flagged fl n u = flaggedb fl (64 * n) u := fun fl u => by
+      unfold flagged flaggedb; rw [e]
+    unfold pmod at r5
+    rw [e, f, f] at r5; rw [e'] at r4
+    exact ⟨r1, r2, r3, r4, r5⟩
+  · have hb' : b = 64 * n - (64 * n - b) := by omega
+    rw [hb'] at hyb hzb ⊢
+    exact basecase_spec_k yp zp c n (64 * n - b) hn1 (by omega) (by omega) hy hz hly hlz hyb hzb
 
 -- non-vacuity modulo B+1: (B−1)² ≡ (−2)² = 4; 2^64·2^64 ≡ 1; 1·2^64 = 2^64 (returned as limb 0 with ret 1)
 example : mulmod_2expp1_basecase [B - 1] [B - 1] 0 64 = ([4], 0) := by decide
 example : mulmod_2expp1_basecase [0] [0] 3 64 = ([1], 0) := by decide
 example : mulmod_2expp1_basecase [1] [0] 1 64 = ([0], 1) := by decide
+-- b = 70 (two limbs, k = 58): (2^70 − 1)² ≡ (−2)² = 4, and 3·2^70 ≡ −3 ≡ 2^70 − 2
+example : mulmod_2expp1_basecase [B - 1, 63] [B - 1, 63] 0 70 = ([4, 0], 0) := by decide
+example : mulmod_2expp1_basecase [3, 0] [0, 0] 1 70 = ([B - 2, 63], 0) := by decide
 
 /-- mpn_mulmod_Bexpp1 for limbs ≤ FFT_MULMOD_2EXPP1_CUTOFF (the pointwise multiplication of the MFA transforms):
     for fully reduced operands (top limb 0, or the vector (0,…,0,1)) the result is their product modulo p,
